@@ -153,6 +153,30 @@ def replay_layout(pyhf, backend, precision, chunk, seed):
             continue
         tr.buf.clear()
         r_obs, r_tail, r_med, r_band, r_calc = ref
+        # the documented meaning of each entry, from the calculator's own API (asymptotics: deterministic)
+        if calc == "asymptotics":
+            try:
+                tsv = r_calc.teststatistic(mu)
+                sbd, bd = r_calc.distributions(mu)
+                c_sb, c_b, c_s = r_calc.pvalues(tsv, sbd, bd)
+                e_sb, e_b, e_s = r_calc.expected_pvalues(sbd, bd)
+                tr.buf.clear()
+                isq0 = kind == "q0"
+                want = {"obs": c_sb if isq0 else c_s, "tail": [c_b] if isq0 else [c_sb, c_b],
+                        "median": (e_sb if isq0 else e_s)[2], "band": list(e_sb if isq0 else e_s)}
+                f = lambda x: tofloat(pyhf, x)  # noqa: E731
+                close = lambda a, b: abs(f(a) - f(b)) <= 1e-9 * max(abs(f(b)), 1e-12) or (math.isnan(f(a)) and math.isnan(f(b)))  # noqa: E731
+                okk = close(r_obs, want["obs"]) and len(r_tail) == len(want["tail"]) and all(close(a, b) for a, b in zip(r_tail, want["tail"])) \
+                    and close(r_med, want["median"]) and len(r_band) == 5 and all(close(a, b) for a, b in zip(r_band, want["band"]))
+                if not okk:
+                    add("entries of the returned tuple are not (CLs | CLs+b for q0, [CLs+b, CLb] | [CLb], median expected, five-point band) as documented",
+                        dict(det, got={"obs": f(r_obs), "tail": [f(x) for x in r_tail], "median": f(r_med), "band": [f(x) for x in r_band]},
+                             calculator={"CLsb": f(c_sb), "CLb": f(c_b), "CLs": f(c_s)}), tags + ["layout", "meaning"])
+                    continue
+            except Exception as e:  # noqa: BLE001
+                tr.buf.clear()
+                add(f"calculator API failed: {type(e).__name__}: {e}", det, tags + ["exception"])
+                continue
         exp_items = [("obs", r_obs)]
         if case["tail"]:
             exp_items.append(("tail", r_tail))
